@@ -794,6 +794,11 @@ class SC:
         if self._nparr(o):
             return self._elementwise(o, lambda a, b: a + b)
         o = SC.lift(o)
+        if isinstance(o, SSq) and not isinstance(o, SAbs):
+            if isinstance(self, SSq) and not isinstance(self, SAbs):
+                return SSq(self.zs + o.zs)
+            if self.is_zero():
+                return o
         return SC(self.re + o.re, self.im + o.im)
 
     __radd__ = __add__
@@ -977,6 +982,52 @@ class SymbolicConversion(Exception):
     """the implementation tried to turn a symbolic value into a Python number (engine limit, not a verdict)"""
 
 
+class SSq(SC):
+    """a real value known to be a sum of squared moduli sum_k |z_k|^2 (e.g. jnp.abs(x)**2, populations):
+    comparisons with 0 are decided componentwise (linear atoms instead of a sum-of-squares polynomial)"""
+
+    __slots__ = ("zs",)
+
+    def __init__(self, zs):
+        self.zs = [z for z in zs if not z.is_zero()]
+        sq = ZERO
+        for c in self.zs:
+            sq = sq + c.abs2()
+        self.re = sq
+        self.im = ZERO
+
+    def zero_formula(self):
+        fs = []
+        for c in self.zs:
+            fs.append(f_cmp(c.re, "=="))
+            fs.append(f_cmp(c.im, "=="))
+        return f_and(*fs)
+
+    def conj(self):
+        return self
+
+    conjugate = conj
+
+    @property
+    def real(self):
+        return self
+
+    def _cmp(self, o, op):
+        o = SC.lift(o)
+        if o.is_const() and o.is_real() and not isinstance(o, (SSq, SAbs)):
+            c = Fraction(o.re.cval())
+            if c < 0:
+                return {"<": False, "<=": False, ">": True, ">=": True, "==": False, "!=": True}[op]
+            if c == 0:
+                iszero = self.zero_formula()
+                if op in ("<=", "=="):
+                    return mk_bool(iszero)
+                if op in (">", "!="):
+                    return mk_bool(f_not(iszero))
+                return op == ">="
+        return SC._cmp(self, o, op)
+
+
 class SAbs(SC):
     """|z| (or the 2-norm of several components) kept lazily: the square-root variable is only created
     when arithmetic needs it; comparisons with 0 are componentwise"""
@@ -1039,7 +1090,7 @@ class SAbs(SC):
         if hasattr(n, "_v"):
             n = SC.lift(n).re.cval()
         if n == 2:
-            return SC(self.sq)
+            return SSq(self.zs)
         return SC.__pow__(self, n)
 
     def _cmp(self, o, op):
